@@ -89,6 +89,19 @@ fn segment(f_x0_dx: f64, knot_0: Knot, f_x1_dx: f64, knot_1: Knot) -> Segment<Po
     Segment { end, poly }
 }
 
+/// Verification hooks: expose the private kernels so that they can be compared one by one.
+#[cfg(piecewise_polynomial_verif)]
+pub mod verif_hooks_spline {
+    use crate::piecewise::Segment;
+    use crate::poly::{Knot, Poly3};
+    pub fn f_dx(knot_0: Knot, knot_1: Knot, knot_2: Knot) -> f64 {
+        super::f_dx(knot_0, knot_1, knot_2)
+    }
+    pub fn segment(f_x0_dx: f64, knot_0: Knot, f_x1_dx: f64, knot_1: Knot) -> Segment<Poly3> {
+        super::segment(f_x0_dx, knot_0, f_x1_dx, knot_1)
+    }
+}
+
 #[cfg(test)]
 mod tests {
     use super::*;
